@@ -112,6 +112,22 @@ example :
 example : legal [.mkDriver 0, .mkSock 0 .udp 0 false false false, .mkTodo 1 0 true, .step 0, .send 0,
     .destroyDriver 0, .shift 1, .cancel 1, .destroySock 0, .dropTodo 1, .destroyPool] = true := rfl
 
+/-- the echo idiom: the received buffer (of the socket's own pool) is handed back to `Send`; with it queued the
+user holds nothing, so destroying the socket is legal - the future is released as a broken promise.  (That the
+real destructor can still give the queued buffer back to the receive pool is a matter of member destruction
+order, below the model: see `Op.echo`; the harness runs such histories on the real code under ASan.) -/
+example :
+    let h : List Op := [.mkDriver 0, .mkSock 0 .tcp 0 false true false, .peerSend 0, .step 0, .echo 0, .destroySock 0]
+    legal h = true ∧ (run .fixed {} h).ub = none ∧ (run .fixed {} h).futs 0 = some (0, .broken) := ⟨rfl, rfl, rfl⟩
+
+/-- an echo does not take a buffer of the user's send pool: four echoes/sends pending plus ... the pool may be
+destroyed while an echo is pending, and the socket afterwards -/
+example : legal [.mkDriver 0, .mkSock 0 .udp 0 false true false, .peerSend 0, .step 0, .echo 0, .destroyPool,
+    .destroySock 0] = true := rfl
+
+/-- without a held buffer there is nothing to echo -/
+example : legal [.mkDriver 0, .mkSock 0 .tcp 0 false true false, .echo 0] = false := rfl
+
 /-- an illegal history (socket destroyed while a receive buffer is held) does reach `ub` -/
 example : (run .fixed {} [.mkDriver 0, .mkSock 0 .udp 0 false true false, .peerSend 0, .step 0, .destroySock 0]).ub
     = some "socket destroyed while receive buffers of its pool are still held" := rfl
